@@ -35,11 +35,18 @@ LiveValueAt(P, m) == SumOver({h \in Holdings(P) : h.mint = m /\ Live(h)}, LAMBDA
 -----------------------------------------------------------------------------
 (* State invariants                                                        *)
 
-Inv(P) ==
+\* proofs that are at once in a wallet's spendable store and in an outstanding token.  A restore legitimately creates this
+\* situation (the seed's outputs that sit in tokens handed out are unspent, so they are restored); whoever redeems the token
+\* later makes the restored copy spent without the wallet being able to know.  Such proofs are exempt from "every spendable
+\* proof is unspent at the mint" from the restore on (WalletTrace keeps the set).
+DoubleHeld(P) ==
+  UNION {Ids(P.wallets[w].proofs) : w \in W(P)} \cap UNION {Ids(P.tokens[t].proofs) : t \in DOMAIN P.tokens}
+
+InvX(P, exempt) ==
   UNION {
     \* C17: the reported balance is exactly the value of the spendable proofs, all unspent at the mint
     (IF P.wallets[w].bal = Val(P.wallets[w].proofs) THEN {} ELSE {<<"C17", "balance-is-not-sum-of-spendable:" \o w>>})
-    \cup (IF \A p \in SeqSet(P.wallets[w].proofs) : p.mstate = "unspent" THEN {}
+    \cup (IF \A p \in SeqSet(P.wallets[w].proofs) : p.mstate = "unspent" \/ p.id \in exempt THEN {}
           ELSE {<<"C17", "spendable-proof-not-unspent-at-mint:" \o w>>})
     \cup (IF SumOver(DOMAIN P.wallets[w].bymint, LAMBDA m : P.wallets[w].bymint[m]) = P.wallets[w].bal THEN {}
           ELSE {<<"C17", "balance-by-mints-differs:" \o w>>})
@@ -54,9 +61,10 @@ Inv(P) ==
         ELSE {<<"C17", "proof-spendable-in-two-wallets">>})
   \* C17: no value lost - everything unspent at a mint is held by a wallet or sits in an outstanding token
   \cup UNION {
-         (IF P.mints[m].balance - P.mints[m].retired > LiveValueAt(P, m) THEN {<<"C17", "value-lost-at:" \o m>>} ELSE {})
-         \cup (IF P.mints[m].balance - P.mints[m].retired < LiveValueAt(P, m) THEN {<<"C17", "holdings-exceed-mint-balance:" \o m>>} ELSE {})
+         (IF P.mints[m].balance - P.mints[m].retired < LiveValueAt(P, m) THEN {<<"C17", "holdings-exceed-mint-balance:" \o m>>} ELSE {})
        : m \in M(P)}
+
+Inv(P) == InvX(P, {})
 
 -----------------------------------------------------------------------------
 (* Per-operation conditions                                                 *)
@@ -129,7 +137,18 @@ RestoreStep(P, e, Q) ==
        IN (IF got = want THEN {} ELSE {<<"C19", (IF got < want THEN "restore-incomplete" ELSE "restore-exceeds-seed-outputs") \o sfx>>})
   ELSE {<<"C19", "restore-failed">>}
 
+\* C17, no value lost: what is unspent at a mint and held by nobody.  Reported at the step that loses it (with what kind of
+\* step it was), not again at every later step.
+Lost(P, m) == IF m \in M(P) THEN P.mints[m].balance - P.mints[m].retired - LiveValueAt(P, m) ELSE 0
+LossContext(e) ==
+  IF e.ev = "receive" /\ ~e.r.ok /\ ~e.r.skipped
+  THEN "/failed-receive/" \o e.a.lockclass \o (IF e.a.swap /\ e.a.tokmint # e.a.default THEN "/swap-to-trusted" ELSE "")
+  ELSE ""
+ConservationTags(P, e, Q) ==
+  UNION {IF Lost(Q, m) > 0 /\ Lost(Q, m) > Lost(P, m) THEN {<<"C17", "value-lost" \o LossContext(e) \o ":" \o m>>} ELSE {} : m \in M(Q)}
+
 Step(P, e, Q) ==
+  ConservationTags(P, e, Q) \cup
   (IF e.r.panic THEN {<<"C17", "wallet-operation-panicked:" \o e.ev>>} ELSE {})
   \cup (CASE e.ev \in {"send", "sendlocked"} -> SendStep(P, e, Q)
           [] e.ev = "receive" -> ReceiveStep(P, e, Q)
